@@ -32,22 +32,16 @@ void cbAfter(void* c, const void* ibcv, int pc0, int pc1) {
 		else { if (k->lastBranchPc == pc0) { k->runHist[k->run > 3 ? 3 : k->run]++; } else k->runHist[0]++; k->run = 0; k->lastBranchPc = -1; }
 	}
 }
-volatile sig_atomic_t g_watchArmed = 0;
-void onAlarm(int) {
-	if (!g_watchArmed) return;
-	signalSafeViolation("C07:watchdog:jit-execution-did-not-return");
-	_exit(3);
-}
 }
 
 RXV_SUBCOMMAND(c07) {
+	runWatchdogKey() = "C07:watchdog:interpreter-execution-did-not-return";
 	Rng rng(args.seed, 0xc07, args.shard);
 	const bool thorough = args.thorough();
 	const uint64_t nProgs = args.cases ? args.cases : 200;
 	const uint64_t nArith = args.num("arith", thorough ? 100000000 : 600000);
 	for (const char* f : { "programs_run", "branches_decoded_interpreter", "branches_decoded_jit", "arith_samples", "taken_run_len_1", "taken_run_len_2", "iterations_monitored", "branch_dense_programs", "jit_runs_returned", "budget_stress_programs" }) R.floorKey(f);
 	for (int b = 0; b < 16; ++b) R.floorKey("arith_b" + std::to_string(b + 8));
-	signal(SIGALRM, onAlarm);
 
 	// ---- (c) arithmetic monitor through the real front end and the real exe_CBRANCH
 	{
@@ -158,10 +152,9 @@ RXV_SUBCOMMAND(c07) {
 		// (d) JIT run under the watchdog, then (b) on the emitted code
 		randomx_vm* vj = fx.vm(base | RANDOMX_FLAG_JIT);
 		{
-			g_watchArmed = 1;
-			struct itimerval tv; memset(&tv, 0, sizeof tv); tv.it_value.tv_sec = 60 + (time_t)(200 * tInterp); setitimer(ITIMER_REAL, &tv, nullptr);
+			runWatchdogKey() = "C07:watchdog:jit-execution-did-not-return";
 			ProgResult rj = runProgram(vj, prog, fx.sp0.data(), 0, iters, fx.spB.data());
-			memset(&tv, 0, sizeof tv); setitimer(ITIMER_REAL, &tv, nullptr); g_watchArmed = 0;
+			runWatchdogKey() = "C07:watchdog:interpreter-execution-did-not-return";
 			R.count("jit_runs_returned");
 			if (memcmp(ri.reg, rj.reg, 256) || memcmp(fx.spA.data(), fx.spB.data(), kScratchpadBytes)) R.violation("C07:differential:jit-vs-interpreter-on-branchy-program", "{\"case\":" + cj + "}");
 		}
